@@ -23,6 +23,7 @@ def dispatch (line : String) : String :=
   match stripComment (line.splitOn "\t") with
   | "noop" :: _ => "ok"
   | "ops" :: args => handleOps args
+  | "unop" :: args => handleUnop args
   | "vm" :: args => handleVM args
   | "json" :: args => handleJson args
   | "symops" :: args => handleSymops args
